@@ -164,6 +164,24 @@ Theorem C06_roundtrip : forall asn4 m, wf asn4 m ->
 Proof. exact update_roundtrip. Qed.
 Print Assumptions C06_roundtrip.
 
+(** [wf] is the stated ranges ([in_ranges]) plus two side conditions: announced prefixes come with at
+    least one attribute, and there is something to send.  The first is a real restriction of the
+    property's domain: without attributes the announced prefixes are NOT sent (construct returns None,
+    or sends only the withdrawals).  Proposed known finding C06-nlri-without-attributes. *)
+Theorem C06_wf_is_ranges_plus_guard : forall asn4 m,
+  wf asn4 m <-> in_ranges asn4 m /\ (u_nlri m = [] \/ u_attrs m <> []) /\ (u_attrs m <> [] \/ u_withdraw m <> []).
+Proof. exact wf_iff_in_ranges. Qed.
+Print Assumptions C06_wf_is_ranges_plus_guard.
+
+Theorem C06_nlri_without_attributes_refuted :
+  (in_ranges false nlri_only /\ u_nlri nlri_only <> [] /\ construct false nlri_only = Ok None) /\
+  (in_ranges false nlri_and_withdraw_only /\ u_nlri nlri_and_withdraw_only <> [] /\
+   exists body, construct false nlri_and_withdraw_only =
+                  Ok (Some (marker16 ++ be 2 (len body + 19) ++ [c_MSG_UPDATE] ++ body)) /\
+                parse false body = Ok (mkUpd [(184549376, 8)] [] [])).
+Proof. exact nlri_without_attributes_refuted. Qed.
+Print Assumptions C06_nlri_without_attributes_refuted.
+
 Definition C06_example : upd :=
   mkUpd [(0, 0); (3232235520, 24)]
         [(1, VNum 0); (2, VPath [(2, [65001; 4200000000]); (1, [7])]); (3, VNum 167772161);
